@@ -2179,7 +2179,9 @@ def _config_str(
   with _parse_scope(import_manager=import_manager):
     macros = {}
     for (scope, selector), config in configuration_object.items():
-      if _REGISTRY[selector].wrapped == macro:  # pylint: disable=comparison-with-callable
+      # A macro that was used while unbound (the failed call still leaves an
+      # empty record behind) has no value to print.
+      if _REGISTRY[selector].wrapped == macro and 'value' in config:  # pylint: disable=comparison-with-callable
         macros[scope, selector] = config
     if macros:
       formatted_statements.append('# Macros:')
